@@ -18,6 +18,7 @@ namespace tapkee_internal
 __TAPKEE_IMPLEMENTATION(LinearLocalTangentSpaceAlignment)
     void validate()
     {
+        parameters[target_dimension].checked().satisfies(InRange<IndexType>(1, current_dimension + 1)).orThrow();
     }
 
     TapkeeOutput embed()
